@@ -44,7 +44,9 @@ func init() {
 					if !fc {
 						cfg.ClientNoFC, cfg.ServerNoFC = true, true
 					}
-					out = append(out, Case{Family: "appsend16", Seed: rng.Int63(), Cfg: cfg})
+					for _, extra := range []int{1, 2, 3, 5} {
+						out = append(out, Case{Family: "appsend16", Seed: rng.Int63(), Cfg: cfg, P: map[string]int{"extra": extra}})
+					}
 				}
 			}
 		}
@@ -176,16 +178,26 @@ func famAppSend16(w *World, c *Case, rng *rand.Rand) {
 		w.Finish()
 		return
 	}
+	// every send after the first one on a non-streaming side must be refused: the second, and the
+	// third, fourth ... as well (1 + extra sends in total)
+	extra := c.p("extra", 1)
+	more := func(first Op) []Op {
+		out := []Op{first}
+		for i := 0; i < extra; i++ {
+			out = append(out, Op{K: "send", N: []int{20000, 11, 0, 70000, 5}[i%5]})
+		}
+		return out
+	}
 	specs := []*RPCSpec{
-		// caller: second SendMsg on a server-streaming (non-client-streaming) method
-		{ID: "c2", Method: "ServerStream", Client: []Op{{K: "open"}, {K: "send", N: 10}, {K: "send", N: 20000}, {K: "close"}, {K: "recvall"}},
+		// caller: further SendMsg calls on a server-streaming (non-client-streaming) method
+		{ID: "c2", Method: "ServerStream", Client: append(append([]Op{{K: "open"}}, more(Op{K: "send", N: 10})...), Op{K: "close"}, Op{K: "recvall"}),
 			Handler: []Op{{K: "recv"}, {K: "send", N: 5}, {K: "ret"}}},
-		// caller: unary method through the stream API, two sends
-		{ID: "c3", Method: "Unary", Client: []Op{{K: "open"}, {K: "send", N: 10}, {K: "send", N: 11}, {K: "close"}, {K: "recvall"}},
+		// caller: unary method through the stream API
+		{ID: "c3", Method: "Unary", Client: append(append([]Op{{K: "open"}}, more(Op{K: "send", N: 10})...), Op{K: "close"}, Op{K: "recvall"}),
 			Handler: []Op{{K: "recv"}, {K: "send", N: 5}, {K: "ret"}}},
-		// handler: second SendMsg on a client-streaming (non-server-streaming) method
+		// handler: further SendMsg calls on a client-streaming (non-server-streaming) method
 		{ID: "h2", Method: "ClientStream", Client: []Op{{K: "open"}, {K: "send", N: 10}, {K: "close"}, {K: "recvall"}},
-			Handler: []Op{{K: "recvall"}, {K: "send", N: 5}, {K: "send", N: 20000}, {K: "ret"}}},
+			Handler: append(append([]Op{{K: "recvall"}}, more(Op{K: "send", N: 5})...), Op{K: "ret"})},
 	}
 	for _, s := range specs {
 		w.Env.StartRPC(context.Background(), w.Ch, s)
@@ -204,8 +216,10 @@ func famAppSend16(w *World, c *Case, rng *rand.Rand) {
 			return
 		}
 		w.Stat("appsend16_second_sends", 1)
-		if sends[1].RetSeq == 0 || sends[1].Err == "" {
-			w.Violate("C16", "second-send-accepted", "rpc %s: the %s's second send on a non-streaming side returned nil", id, side)
+		for i := 1; i < len(sends); i++ {
+			if sends[i].RetSeq == 0 || sends[i].Err == "" {
+				w.Violate("C16", "second-send-accepted", "rpc %s: the %s's send #%d on a non-streaming side returned nil", id, side, i+1)
+			}
 		}
 		// nothing of it on the wire
 		if l, sid, ok := w.Wire.StreamByTag(id); ok {
